@@ -6,6 +6,7 @@
 //
 //	h <input> => <blake2b-256(input)>           table entry; computed here with x/crypto/blake2b,
 //	                                            never by pocket-core code
+//	clr => ok                                   empty the table (before the entries of each tree)
 //	tree <id> <height> <post> <leaf hashes, input order> => <root> <sorted leaf hashes> | PANIC
 //	proof <id> <index> => <idx> <target> <siblings> <leaf hash> | PANIC
 //	val <id> <kind> <post> <idx> <target> <siblings> <leaf hash> <root> <levels> => <valid> <replay> | PANIC
@@ -274,6 +275,9 @@ func mkTree(ps []pc.Proof, height int64) *tree {
 			seen[s] = true
 		}
 	}
+	// the table is per tree: forget what the previous tree needed (keeps the driver's memory flat)
+	seenH = map[string]bool{}
+	tr.Line("clr", false, "clr => ok")
 	t.levels = shadowLevels(t.post, shadowStructure(t.leafHashes))
 	cp := append([]pc.Proof(nil), ps...)
 	res := "PANIC"
